@@ -3,6 +3,7 @@ import Proofs.C06.Wire
 import Proofs.C06.Prefix
 import Proofs.C06.Wf
 import Proofs.C06.More
+import Proofs.C06.Delete
 /-!
 # C06 — a gossiping KV cluster converges after any loss, reordering or partition (property theorems)
 
@@ -493,5 +494,99 @@ example :
     (c1.nodes[1]?.map fun nd => nd.gossipQ.map fun b => (b.key, b.content, b.version)) = some [("r1", ["a"], 1)] ∧
     (c2.nodes[1]?.map fun nd => nd.gossipQ.map fun b => (b.key, b.content, b.version)) = some [("r1", ["a"], 2)] ∧
     (c3.nodes[1]?.map fun nd => nd.gossipQ.map fun b => (b.key, b.content, b.version)) = some [("r1", ["a"], 2)] := by decide
+
+/-! ### Key-level `Delete`, the `Deleted` flag on both receive paths, `cleanupObsoleteEntries`, re-creation
+Generic in the replicated value, for ANY store (deleted keys included, no `GoodStore`), any retention unless `hcfg` is
+listed. They describe `C06.delete` / `C06.deliver` / `C06.cleanupObsolete` / `C06.cas`, which the delete, cleanup and
+re-create correspondence streams compare with the code after every event. What is NOT proved: convergence /
+acked_visible / watcher theorems for clusters holding deleted keys (`GoodStore` still requires `deleted = false`). -/
+section Delete
+variable {W : Type} [MergeVal W]
+
+/-- `Delete` of a live key: value re-merged with itself, key marked deleted at the call's time, version bumped, and a
+broadcast carrying the flag queued for gossip -/
+theorem delete_marks (cfg : Cfg) (hcfg : cfg.lit = 0) (now nowMs : Int) (nd : Node W) (key : String) (e : Entry W)
+    (res : W) (ch : Option W) (hk : getE nd.store key = some e) (hd : e.deleted = false)
+    (hm : MergeVal.merge false now e.val e.val = some (res, ch))
+    (hnz : nowMs ≠ 0) (hnew : e.updateTime = 0 ∨ nowMs > e.updateTime) :
+    getE (delete cfg now nowMs nd key).store key
+        = some { val := res, version := e.version + 1, deleted := true, updateTime := nowMs } ∧
+    ∃ b ∈ (delete cfg now nowMs nd key).gossipQ,
+        b.key = key ∧ b.deleted = true ∧ b.version = e.version + 1 ∧ b.updateTime = nowMs :=
+  PfC06.delete_marks cfg hcfg now nowMs nd key e res ch hk hd hm hnz hnew
+
+/-- `Delete` of an absent or already deleted key does nothing (no version bump, no second broadcast) -/
+theorem delete_noop (cfg : Cfg) (now nowMs : Int) (nd : Node W) (key : String)
+    (h : getE nd.store key = none ∨ ∃ e, getE nd.store key = some e ∧ e.deleted = true) :
+    delete cfg now nowMs nd key = nd := by
+  rcases h with h | ⟨e, h, hd⟩
+  · exact PfC06.delete_absent cfg now nowMs nd key h
+  · exact PfC06.delete_idem cfg now nowMs nd key e h hd
+
+/-- a deleted pair (gossip or push/pull) never creates the key on a node that does not hold it -/
+theorem deleted_pair_not_revived (cfg : Cfg) (now : Int) (nd : Node W) (m : Msg W)
+    (hk : getE nd.store m.key = none) (hd : m.deleted = true) :
+    notifyMsg cfg now nd m = nd ∧ deliver cfg now nd m = nd :=
+  ⟨PfC06.notifyMsg_deleted_absent cfg now nd m hk hd, PfC06.deliver_deleted_absent cfg now nd m hk hd⟩
+
+/-- a deleted pair with a newer update time marks a live key deleted with the SENDER's time and is gossiped on -/
+theorem deliver_deleted_marks (cfg : Cfg) (hcfg : cfg.lit = 0) (now : Int) (nd : Node W) (m : Msg W) (c : Entry W)
+    (res : W) (ch : Option W) (hk : getE nd.store m.key = some c) (hc : c.deleted = false) (hd : m.deleted = true)
+    (hm : MergeVal.merge false now c.val m.val = some (res, ch))
+    (hnz : m.updateTime ≠ 0) (hnew : c.updateTime = 0 ∨ m.updateTime > c.updateTime) :
+    getE (deliver cfg now nd m).store m.key
+        = some { val := res, version := c.version + 1, deleted := true, updateTime := m.updateTime } ∧
+    ∃ b ∈ (deliver cfg now nd m).gossipQ,
+        b.key = m.key ∧ b.deleted = true ∧ b.version = c.version + 1 ∧ b.updateTime = m.updateTime :=
+  PfC06.deliver_deleted_marks cfg hcfg now nd m c res ch hk hc hd hm hnz hnew
+
+/-- a pair that is not deleted, or whose deletion is unstamped / not newer, leaves the key-level flag and time alone
+(any retention, any stored entry - deleted ones included: no message un-deletes a key) -/
+theorem stale_pair_keeps_flag (cfg : Cfg) (now : Int) (nd : Node W) (m : Msg W) (c : Entry W)
+    (hk : getE nd.store m.key = some c)
+    (hold : m.deleted = false ∨ m.updateTime = 0 ∨ (c.updateTime ≠ 0 ∧ m.updateTime ≤ c.updateTime)) :
+    ∃ e, getE (deliver cfg now nd m).store m.key = some e ∧ e.deleted = c.deleted ∧ e.updateTime = c.updateTime :=
+  PfC06.deliver_stale_delete_keeps_flag cfg now nd m c hk hold
+
+/-- `cleanupObsoleteEntries` removes exactly the pairs marked deleted for longer than the timeout -/
+theorem cleanup_exact (cfg : Cfg) (nowMs : Int) (nd : Node W) (p : String × Entry W) :
+    p ∈ (cleanupObsolete cfg nowMs nd).store ↔ p ∈ nd.store ∧ ¬ PfC06.Obsolete cfg nowMs p.2 :=
+  PfC06.cleanup_mem cfg nowMs nd p
+
+/-- … and lookups of the surviving keys are unchanged (live keys are never touched) -/
+theorem cleanup_keeps (cfg : Cfg) (nowMs : Int) (nd : Node W) (k : String) (e : Entry W)
+    (hk : getE nd.store k = some e) (hno : ¬ PfC06.Obsolete cfg nowMs e) :
+    getE (cleanupObsolete cfg nowMs nd).store k = some e :=
+  PfC06.cleanup_getE_kept cfg nowMs nd k e hk hno
+
+/-- once the key is gone, the next CAS stores its value as a FIRST value: version 1 again, not deleted, acknowledged -/
+theorem recreate_after_cleanup (cfg : Cfg) (hcfg : cfg.lit = 0) (now nowMs : Int) (nd : Node W) (key : String)
+    (f : Option W → Option W) (v : W) (hk : getE nd.store key = none) (hf : f none = some v)
+    (hne : (MergeVal.names v).isEmpty = false) :
+    (cas cfg now nowMs nd key f).2 = .ok ∧
+    getE (cas cfg now nowMs nd key f).1.store key = some { val := v, version := 1 } :=
+  PfC06.recreate_after_cleanup cfg hcfg now nowMs nd key f v hk hf hne
+
+end Delete
+
+/-- a concrete history meeting the hypotheses above (V = ring descriptor, obsolete-entries timeout 500 ms): node 0
+writes `a`, node 1 pulls it, node 0 deletes the key (clock 10), node 1 pulls the deletion (`deliver_deleted_marks`),
+node 2 - which never had the key - pulls it too and stays empty (`deleted_pair_not_revived`); one second later both
+holders clean up (`cleanup_exact`), node 0 writes again: version 1 (`recreate_after_cleanup`) -/
+def cfgD : Cfg := { lit := 0, lim := 2, obs := 500 }
+def evsD : List (Event Desc) :=
+  [.cas 0 "r1" (fWrite [U1 "a" 8 false]), .pushPull 0 1, .delete 0 "r1", .pushPull 0 1, .pushPull 0 2]
+def evsD2 : List (Event Desc) := [.tick, .cleanup 0, .cleanup 1, .cas 0 "r1" (fWrite [U1 "a" 11 false])]
+
+def cD1 : Cluster Desc := runC cfgD (initC 3 10) evsD
+def cD2 : Cluster Desc := runC cfgD cD1 evsD2
+
+theorem delete_history_witness :
+    (cD1.nodes.map fun nd => nd.store.map fun p => (p.1, p.2.version, p.2.deleted, p.2.updateTime)) =
+      [[("r1", 2, true, 10000)], [("r1", 2, true, 10000)], []] ∧
+    (cD2.nodes.map fun nd => nd.store.map fun p => (p.1, p.2.version, p.2.deleted, p.2.updateTime)) =
+      [[("r1", 1, false, 0)], [], []] ∧
+    (cD2.nodes.map fun nd => nd.store.map fun p => p.2.val) = [[[U1 "a" 11 false]], [], []] :=
+  ⟨by decide, by decide, by decide⟩
 
 end PC06
